@@ -136,11 +136,11 @@ def gen_case(rng, tier):
         return gen_ctor_case(rng)
     if rng.random() < 0.02:
         return gen_specval_case(rng, tier)
-    big = tier == "thorough" and rng.random() < 0.04
+    big = tier == "thorough" and rng.random() < 0.015
     if big:
         mx = 128
         nkeys = rng.choice([100, 140, 200])
-        keys = [FRESH0 + 300 + i for i in range(nkeys)]
+        keys = [FRESH0 + 128 + i for i in range(nkeys)]
         nops = rng.randint(100, 260)
     else:
         mx = rng.choice([1, 1, 2, 2, 2, 3, 3, 3, 4, 4, 5, 6, 8])
